@@ -18,7 +18,7 @@ RULE = ("pairs of files (valid root chains in OpenPGP mode, valid delegations, e
         "dependency; gpg-sign and gpg-key-lookup with the dependency stood in for by a signer with outputs fixed per case (fingerprint spellings, raising signer, "
         "unknown key, broken / missing / re-laid-out files); the interactive modify-metadata editor driven by scripts of typed lines on stdin (choices, keys, thresholds, early end of input).  Observables: exit status, success line on stdout, file bytes.  non-trivial = a run whose files both parse; distinct by (entry point, files)")
 
-THEOREMS = ["exit_zero_iff", "verify_codes", "sign_zero_only_if_signed", "sign_bad_key_untouched", "gpg_sign_zero_iff_signed", "gpg_commands_need_dependency", "gpg_sign_end_to_end", "editLoop_writes", "edit_session_files", "rejected_nonzero_any_stdout", "absent_stdout_same_status", "failing_stdout_status"]
+THEOREMS = ["exit_zero_iff", "verify_codes", "sign_zero_only_if_signed", "sign_bad_key_untouched", "gpg_sign_zero_iff_signed", "gpg_commands_need_dependency", "gpg_sign_end_to_end", "editLoop_writes", "edit_session_files", "rejected_nonzero_any_stdout", "absent_stdout_same_status", "failing_stdout_status", "edit_open_and_save", "edit_two_signers"]
 
 REPO = os.environ.get("CCT_REPO", "/repo")
 ENTRY_POINTS = ["script", "modulePkg", "moduleCli"]
